@@ -30,7 +30,7 @@ func main() {
 		return
 	}
 	r := gen.New(gen.Seed())
-	n := gen.Scale(70, 1800)
+	n := gen.Scale(70, 900)
 	for i := 0; i < n; i++ {
 		history(h, r, i)
 	}
